@@ -4,6 +4,7 @@
 import Depccg.Wire
 import Depccg.Ja
 import Depccg.OpsSearch
+import Depccg.OpsGlue
 
 namespace Depccg
 namespace Ops
@@ -142,6 +143,7 @@ def dispatch (st : State) (line : String) : State × String :=
   | op :: ts =>
     if op == "search" then (st, OpsSearch.searchOp ts) else
     if op == "beam" then (st, OpsSearch.beamOp ts) else
+    if let some r := OpsGlue.dispatch op ts then (st, r) else
     match catOps op ts with
     | some r => (st, r)
     | none =>
